@@ -24,6 +24,7 @@ import Rooc.Proofs.WFRel2An
 import Rooc.Proofs.RefLemmas
 import Rooc.Proofs.WFOccur
 import Rooc.Proofs.WFCompileOrdered
+import Rooc.Proofs.WFErrKind
 namespace Rooc.Props.C08
 open Rooc Rooc.Lin Rooc.WFDedup Rooc.Lin.Examples
 
@@ -675,5 +676,34 @@ example : ∃ lm : LinModel (Ext ℚ), Compile.linearize exA (.fin 0) 0 = .ok lm
     hdecl hord hfin
   rw [fieldExact_rat] at key
   exact ⟨_, hc, key hc⟩
+
+/-! ### 14. which errors the compiler can report: `UnimplementedExpression` is dead code
+
+`Exp::linearize` raises `UnimplementedExpression` for the operator-form logic nodes (`BinOp::And | Or | Xor |
+Implies | Iff`, `UnOp::Not`).  Behind `Linearizer::linearize` these two branches are unreachable: every expression
+handed to `Exp::linearize` is a sub-term of the result of `normalize` (`simplify ∘ flatten ∘ simplify`), and `simplify`
+rewrites every operator-form logic node into the n-ary / dedicated node (`Lin.simplify_noOp`, for EVERY input).  The
+proof is an error-kind pass over every action of the lowering (`Proofs/WFErrKind.lean`, `EK Q x`: every error `x` can
+raise satisfies `Q`).  The harness agrees: 0 `err:UnimplementedExpression` in every tier, although the generators do
+produce operator-form nodes (stream `targeted-error`). -/
+
+/-- the lowering never reports `UnimplementedExpression`, for any model, bounds map, domain and number type. -/
+theorem lowering_never_unimplemented (m : Model α) (b : BoundsMap α) (d : List (DomVar α)) :
+    linearizeWith m b d ≠ .error .unimplemented :=
+  linearizeWith_not_unimplemented m b d
+
+/-- the errors of the whole compiler: one of the six other kinds of `LinearizationError` (or the model-only `fuel`). -/
+theorem compile_error_kinds {m : Model α} {tol : α} {maxSteps : Nat} {err : LinErr}
+    (h : Compile.linearize m tol maxSteps = .error err) :
+    err = .nonLinear ∨ err = .divisionByZero ∨ (∃ k, err = .emptyAggregation k) ∨
+      (∃ n, err = .varAlreadyDeclared n) ∨ err = .nonBinaryLogicOperand ∨
+      (∃ vs, err = .missingFiniteBounds vs) ∨ err = .fuel := by
+  cases err with
+  | unimplemented => exact absurd h (compile_not_unimplemented m tol maxSteps)
+  | _ => simp
+
+/-- `simplify` removes the operator-form nodes: `a and b` written with `BinOp::And` becomes the n-ary `And`. -/
+example : NoOp (Exp.simplify (.bin .and (.var "a") (.un .not (.var "b")) : Exp (Ext Rat))) = true :=
+  simplify_noOp _
 
 end Rooc.Props.C08
